@@ -273,3 +273,22 @@ Definition sched_excused_C15 (t : list action * sched_obs) : bool :=
 
 Definition sched_chk_strict (t : list action * sched_obs) : bool := sched_strict_C08 t && sched_strict_C09 t && sched_strict_C15 t.
 Definition sched_chk_excused (t : list action * sched_obs) : bool := sched_excused_C08 t && sched_excused_C09 t && sched_excused_C15 t.
+
+(* ---- family ckpt: runs of one checkpointed feed recorded without hooks ---- *)
+(* input: the final CAS of every document; observation: per run, what the callback received and the
+   checkpoint document read after the run *)
+Definition ckpt_runs := list (list ev * N).
+
+Fixpoint chk_ckpt_prefix (seen : list ev) (runs : ckpt_runs) : bool :=
+  match runs with
+  | [] => true
+  | (got, cp) :: r =>
+      let seen' := seen ++ got in
+      ((cp =? 0) || existsb (fun e : ev => cp <=? snd e) seen') && chk_ckpt_prefix seen' r
+  end.
+
+Definition chk_ckpt_runs (t : list (string * N) * ckpt_runs) : bool :=
+  let all := flat_map fst (snd t) in
+  chk_ckpt_prefix [] (snd t)
+  && forallb (fun f : string * N => existsb (fun e : ev => String.eqb (fst e) (fst f) && (snd e =? snd f)) all) (fst t)
+  && forallb (fun run : list ev * N => increasing (dedup [] (fst run))) (snd t).
